@@ -95,7 +95,7 @@ enum { CL_RANDOM, CL_VALID, CL_MUTATE, CL_SPLICE, CL_HAVOC, CL_N };
 static const char *clname[CL_N] = {"random", "valid", "mutate", "splice", "havoc"};
 
 #define MAXIN 65536
-#define NDIST 4096
+#define NDIST 16384
 #define DISTLEN 96
 #define NSAMP 24
 
